@@ -48,3 +48,53 @@ package encoder
 //@   proof cases i 0 29, j 0 29
 //@   requires i < j && symbols[i].rectangular == symbols[j].rectangular
 //@   ensures symbols[i].dataCapacity < symbols[j].dataCapacity
+
+// ---------------------------------------------------------------- ISO/IEC 16022 conformance pieces (C08)
+
+// 253-state randomising of pad codewords (5.2.3, annex B.1) and 255-state randomising of Base 256 codewords (annex B.2),
+// written from the standard: R = ((149 * P) mod 253) + 1, pad = 129 + R, minus 254 if above 254;
+//                            R = ((149 * P) mod 255) + 1, value = ch + R, minus 256 if above 255
+//@ func randomize253State(codewordPosition int) (r byte)
+//@   property C08
+//@   mode bv
+//@   requires 0 <= codewordPosition && codewordPosition <= 100000
+//@   let R = (149 * codewordPosition) % 253 + 1
+//@   ensures int(r) == (129 + R <= 254 ? 129 + R : 129 + R - 254)
+//@   ensures 1 <= int(r) && int(r) <= 254
+//@   modifies nothing
+
+//@ func base256Randomize255State(ch byte, codewordPosition int) (r byte)
+//@   property C08
+//@   mode bv
+//@   requires 0 <= codewordPosition && codewordPosition <= 100000
+//@   let R = (149 * codewordPosition) % 255 + 1
+//@   ensures int(r) == (int(ch) + R <= 255 ? int(ch) + R : int(ch) + R - 256)
+//@   modifies nothing
+
+// the encoder's private log/antilog tables are those of GF(256) modulo 0x12d
+//@ lemma dmLogTables(i int)
+//@   property C08
+//@   globals log, alog, moduloValue
+//@   mode bv
+//@   proof cases i 0 253
+//@   ensures moduloValue == 0x12d && len(alog) == 255 && len(log) == 256 && alog[0] == 1
+//@   ensures alog[i+1] == reedsolomon.xtime(alog[i], 0x12d, 256) && 1 <= alog[i] && alog[i] <= 255 && log[alog[i]] == i && log[alog[254]] == 254
+
+// factor tables: factorSets lists the 16 parity lengths; factors[t] are the coefficients (constant term first) of the monic
+// generator polynomial whose roots are 2^1 .. 2^n: evaluating x^n + f[n-1] x^(n-1) + ... + f[0] at 2^i gives 0 for i = 1..n.
+// (2 has order 255 by dmLogTables, so the n roots are distinct and the monic polynomial of degree n is determined.)
+//@ spec func gmul(a int, b int) int = reedsolomon.mulp(a, b, 0x12d, 256, 8)
+//@ spec func pw2(i int) int = i <= 0 ? 1 : reedsolomon.xtime(pw2(i - 1), 0x12d, 256)
+//@ spec func evalF(t int, k int, x int) int = k >= len(factors[t]) ? 1 : gmul(evalF(t, k + 1, x), x) ^ factors[t][k]
+//@ lemma factorSetsTable()
+//@   property C08
+//@   globals factorSets, factors
+//@   ensures len(factorSets) == 16 && len(factors) == 16 && factorSets[0] == 5 && factorSets[1] == 7 && factorSets[2] == 10 && factorSets[3] == 11 && factorSets[4] == 12 && factorSets[5] == 14 && factorSets[6] == 18 && factorSets[7] == 20 && factorSets[8] == 24 && factorSets[9] == 28 && factorSets[10] == 36 && factorSets[11] == 42 && factorSets[12] == 48 && factorSets[13] == 56 && factorSets[14] == 62 && factorSets[15] == 68
+//@   ensures forall t int :: 0 <= t && t < 16 ==> len(factors[t]) == factorSets[t]
+//@ lemma factorRoots(t int, i int)
+//@   property C08
+//@   globals factorSets, factors
+//@   opt ground=on
+//@   proof cases t 0 15, i 1 68
+//@   requires i <= factorSets[t]
+//@   ensures evalF(t, 0, pw2(i)) == 0
